@@ -262,7 +262,8 @@ func panicFromRepo(stack string) bool {
 			continue
 		}
 		file := strings.TrimSpace(lines[i+1])
-		if strings.Contains(file, "/src/runtime/") {
+		// skip every standard-library frame (runtime, math/big, iter, ...): the question is whose code called into it
+		if strings.Contains(file, "/src/runtime/") || strings.HasPrefix(file, runtime.GOROOT()+"/") || strings.Contains(file, "/golang.org/toolchain@") {
 			continue
 		}
 		return strings.HasPrefix(file, RepoDir()+"/")
